@@ -11,6 +11,9 @@ def setups(tier):
         ('chain+child_of_1', 'u1_chain', 'u2_child_of_1', []),
         ('chain+group_two_bunches', 'u1_chain', 'u2_group_two_bunches', []),
         ('fork_ar+child_in_g1', 'u1_fork_ar', 'u2_child_of_2_in_g1', []),
+        # update 2 (a child of job 1) is submitted but never committed; update 3 is submitted and committed meanwhile
+        ('chain+open_u2+u3', 'u1_chain', 'u3_independent_job',
+         [('new_update', 'u1', 't2', 1, 0), ('add_jobs', 'u1', 2, [bf.J(1, abs_parents=[1], abs_group=0)])]),
     ]
     if tier != 'quick':
         s += [
